@@ -99,3 +99,41 @@ Proof.
   apply Forall_forall. intros b I. apply in_map_iff in I. destruct I as (m & <- & I).
   eapply Forall_forall in HL; eauto.
 Qed.
+
+(* the token loop's fuel is never exhausted, whatever the bytes *)
+Lemma rd_length n b x r : rd n b = Some (x, r) -> length r = length b - n /\ n <= length b.
+Proof.
+  unfold rd. destruct (Nat.ltb (length b) n) eqn:E; [discriminate|]. intros H; inversion H; subst.
+  apply Nat.ltb_ge in E. split; [apply skipn_length|exact E].
+Qed.
+
+Lemma un_tokens_no_fuel : forall f n b, length b < f -> un_tokens f n b <> UFuel.
+Proof.
+  induction f; intros n b L; [lia|]. cbn [un_tokens].
+  destruct (N.eqb n 0); [discriminate|].
+  destruct (rd 4 b) as [[kl b1]|] eqn:R1; [|discriminate].
+  destruct (N.ltb (N.of_nat (length b1)) kl); [discriminate|].
+  destruct (rd 4 (skipn (N.to_nat kl) b1)) as [[vl b3]|] eqn:R2; [|discriminate].
+  destruct (N.ltb (N.of_nat (length b3)) vl); [discriminate|].
+  apply rd_length in R1. apply rd_length in R2. rewrite skipn_length in R2.
+  destruct R1 as [R1 R1']. destruct R2 as [R2 R2'].
+  specialize (IHf (n - 1)%N (skipn (N.to_nat vl) b3)).
+  destruct (un_tokens f (n - 1) (skipn (N.to_nat vl) b3)); try discriminate.
+  exfalso. apply IHf; [rewrite skipn_length; lia|reflexivity].
+Qed.
+
+Theorem unmarshal_total : forall b, unmarshal_meta b <> UFuel.
+Proof.
+  intros b. unfold unmarshal_meta.
+  destruct (Nat.ltb (length b) 2); [discriminate|].
+  destruct (rd 2 b) as [[mg b1]|]; [|discriminate].
+  destruct (negb (N.eqb mg magic)); [discriminate|].
+  destruct (rd 2 b1) as [[ver b2]|]; [|discriminate].
+  destruct (negb (N.eqb ver 1)); [discriminate|].
+  destruct (rd 8 b2) as [[mid b3]|]; [|discriminate].
+  destruct (rd 8 b3) as [[rid b4]|]; [|discriminate].
+  destruct (rd 4 b4) as [[size b5]|]; [|discriminate].
+  destruct (rd 4 b5) as [[nt b6]|]; [|discriminate].
+  pose proof (un_tokens_no_fuel (S (length b6)) nt b6 ltac:(lia)) as NF.
+  destruct (un_tokens (S (length b6)) nt b6); try discriminate. congruence.
+Qed.
